@@ -93,13 +93,20 @@ static void usage(void)
  */
 static char *replace_str(char *str, char *orig, char *rep)
 {
-  static char buffer[1024];
+  char *buffer;
   char *p;
 
   if(!(p = strstr(str, orig)))
     return str;
 
-  strncpy(buffer, str, p-str);
+  /* the string can have any length (it is a command line argument) */
+  buffer = malloc(strlen(str) + strlen(rep) + 1);
+  if (buffer == NULL) {
+    fprintf(stderr, "Out of memory!\n");
+    exit(EXIT_FAILURE);
+  }
+
+  memcpy(buffer, str, p-str);
   buffer[p-str] = '\0';
 
   sprintf(buffer+(p-str), "%s%s", rep, p+strlen(orig));
